@@ -6,6 +6,7 @@ import PotasscoVerif.Drv.BufferedStream
 import PotasscoVerif.Drv.RuleBuilder
 import PotasscoVerif.Drv.Aspif
 import PotasscoVerif.Drv.Smodels
+import PotasscoVerif.Drv.Signals
 open PotasscoVerif.Drv
 
 def dispatch (line : String) : String :=
@@ -18,6 +19,7 @@ def dispatch (line : String) : String :=
   | "ar" :: args => runAR args
   | "sw" :: args => runSW args
   | "sr" :: args => runSR args
+  | "sg" :: args => runSG args
   | _ => "bad-component"
 
 partial def loop (h : IO.FS.Stream) (out : IO.FS.Stream) : IO Unit := do
